@@ -31,7 +31,7 @@ def run(ctx):
     runlib.lean_part(ctx, "RootSim.Props.C01Refine", ['RootSim.C01Refine.step_preserves_rinv','RootSim.C01Refine.plain_step_refines_exec','RootSim.C01Refine.anti_step_refines_antiRollback','RootSim.C01Refine.discard_steps_refine_annihilate','RootSim.C01Refine.lp_step_refines_tw','RootSim.C01Refine.lp_step_keeps_reachable','RootSim.C01Refine.checkpoint_refines_stutter','RootSim.C01Refine.fossil_refines_stutter','RootSim.C01Refine.cmpOk_is_needed','RootSim.Refine.cmpOk_of_content'])
     runlib.lean_part(ctx, "RootSim.Props.C01Term", ["RootSim.C01Term.tw_prefix_states_exact", "RootSim.C01Term.tw_first_true_point_exact", "RootSim.C01Term.tw_committed_predicate_is_sequential", "RootSim.C01Term.tw_quiescent_first_true_exact"])
     agg = runlib.run_matrix(ctx, "par re-execution + final LP states vs Lean sequential executor",
-                            40, 1200, oracle_keys=("s_rb_mismatch", "s_below_gvt", "s_double_free", "s_vote_uncommitted"),
+                            40, 500, oracle_keys=("s_rb_mismatch", "s_below_gvt", "s_double_free", "s_vote_uncommitted"),
                             threads=(1, 2, 3, 4, 6), ckpts=(1, 2, 3, 7, 0))
     if agg:
         ctx.coverage["distinct_nontrivial"] = agg.outcomes.get("ok", 0)
@@ -40,7 +40,7 @@ def run(ctx):
                                 "x scheduler seed/burst; every trace line re-executed on the Lean LP model; non-trivial = runs that ended "
                                 "by predicate termination, whose per-LP final state digest was compared with the Lean sequential executor")
     # refinement of the concrete kernel to the abstract global Time Warp machine of the glue theorems, checked on small runs
-    runlib.tw_matrix(ctx, 12, 400, salt=1)
+    runlib.tw_matrix(ctx, 12, 200, salt=1)
     # models that also call the floating-point numerical library (Normal, Poisson, Gamma, RandomRange ...; no Lean twin): the same
     # model+seed under several configurations must end in the same states, and every rollback must reproduce the recorded digest
     import random as _random
